@@ -375,12 +375,42 @@ def run(repo, chk):
         chk.expect(bool(via) and okp, "R-C01-5c", "run_sim: every iteration refreshes %s before the solve" % pname, loc(rs),
                    "the demand / source-head parameters must be re-evaluated at the step's final time before each solve",
                    found="path avoiding it: " + g.path_text(w) if w else "no call of %s in run_sim" % pname)
+    # R-C01-5e: the refresh is unconditional per element: on every way round the element loop of expected_demand_param / source_head_param
+    # the parameter of that element is (re)assigned -- no `continue` or guard may leave a stale value from an earlier time
+    for pname, dictname, nloops in (("expected_demand_param", "expected_demand", 2), ("source_head_param", "source_head", 4)):
+        pf = repo.func("wntr/sim/models/param.py", pname)
+        chk.fn(pf)
+        pg = CFG(pf)
+        nl = 0
+        for lnode, lhead in pg.loop_heads.items():
+            if not isinstance(lnode, ast.For):
+                continue
+            nl += 1
+            body_nodes = set()
+            for st in lnode.body:
+                for x in ast.walk(st):
+                    body_nodes.add(id(x))
+            stores = pg.nodes_where(lambda node, d: id(node) in body_nodes and isinstance(node, ast.Assign) and
+                                    any(unparse(t).startswith("m.%s[" % dictname) for t in node.targets))
+            firsts = pg.succ_on(lhead, True)
+            w = None
+            for f0 in firsts:
+                w = w or pg.can_reach_avoiding(f0, {lhead}, stores)
+            chk.expect(bool(stores) and w is None, "R-C01-5e", "%s: every pass of the loop `for ... in %s` assigns m.%s[...] (no element keeps a stale value)" % (
+                pname, unparse(lnode.iter), dictname), loc(pf, lnode),
+                       "the requested demand / source head must be re-evaluated for every element at every step",
+                       found=("path skipping the assignment: " + pg.path_text(w)) if w else "no assignment of m.%s[...] in the loop" % dictname)
+        if nl < nloops:
+            chk.error("R-C01-5e: %s has %d element loops, expected at least %d" % (pname, nl, nloops))
     # the refresh itself writes .value of every junction's parameter from the same call (checked in 5b) and create_hydraulic_model builds it
     chm = repo.func(HYD, "create_hydraulic_model")
     chk.expect(bool(calls(chm, name="param.expected_demand_param")), "R-C01-5c", "create_hydraulic_model builds the expected_demand parameter", loc(chm))
 
 
 WITNESSES = [
+    dict(name="refresh-skips-unpatterned-junctions", file="wntr/sim/models/param.py",
+         old="        for node_name, node in wn.junctions():\n            m.expected_demand[node_name].value =",
+         new="        for node_name, node in wn.junctions():\n            if node.demand_timeseries_list[0].pattern is None:\n                continue\n            m.expected_demand[node_name].value =", rule="R-C01-5e"),
     dict(name="inlet-plus", file=CON, old="                for link_name in wn.get_links_for_node(node_name, flag='INLET'):\n                    expr -= m.flow[link_name]\n                for link_name in wn.get_links_for_node(node_name, flag='OUTLET'):\n                    expr += m.flow[link_name]\n                if node.leak_status:\n                    expr += m.leak_rate[node_name]\n                m.pdd_mass_balance",
          new="                for link_name in wn.get_links_for_node(node_name, flag='INLET'):\n                    expr += m.flow[link_name]\n                for link_name in wn.get_links_for_node(node_name, flag='OUTLET'):\n                    expr += m.flow[link_name]\n                if node.leak_status:\n                    expr += m.leak_rate[node_name]\n                m.pdd_mass_balance", rule="R-C01-1"),
     dict(name="leak-unguarded", file=CON, old="                if node.leak_status:\n                    expr += m.leak_rate[node_name]\n                m.mass_balance[node_name]", new="                expr += m.leak_rate[node_name]\n                m.mass_balance[node_name]", rule="R-C01-1"),
